@@ -374,13 +374,13 @@ PROPS["C05"] = {
              "SUBSEQUENCE of the hand-off sequence (order kept, nothing torn, merged, duplicated or invented, each line terminated once) and "
              "#handed - #received == slow_conn drop counter delta. Non-trivial: (writer) a write straddling the buffer boundary AND a write longer "
              "AND one shorter than the buffer; (conn) a line longer and a line shorter than iobuf with a pause or a run longer than the flush period. "
-             "Distinct = hash(parameters, op/length sequence). pausing_endpoint (own sub-check, one case costs the pause): the endpoint stays connected but reads nothing for 0.5-8 s while 8-24 MB are handed in (16 KiB receive buffer, iobuf 256 B..2 MB), then reads on: same stream oracle - the received lines are a subsequence of the handed-off ones, in order, whole, none twice, and #absent = slow_conn delta."),
+             "Distinct = hash(parameters, op/length sequence). sibling_destinations: 2-3 destinations of one sendAllMatch route (plain or pickle each), every one with its own endpoint, one possibly throttled, in half of the cases after an earlier route with a connected destination carried traffic and was shut down at run time; 500-5000 lines; every endpoint's stream must be a subsequence of the lines handed to ITS destination, in order, whole, none foreign, absent ones only with slow-connection drops counted. pausing_endpoint (own sub-check, one case costs the pause): the endpoint stays connected but reads nothing for 0.5-8 s while 8-24 MB are handed in (16 KiB receive buffer, iobuf 256 B..2 MB), then reads on: same stream oracle - the received lines are a subsequence of the handed-off ones, in order, whole, none twice, and #absent = slow_conn delta."),
     "level_text": "Model-based testing of the buffered writer under every generated write/flush interleaving, plus generated end-to-end runs over real TCP with an exact subsequence + drop-accounting oracle; holds on all generated.",
     "level_note": "In the end-to-end layer the write/flush interleavings come from real timers and the scheduler; the writer layer covers them systematically. Pickle mode draws only representable lines (others are C16's subject). direction=out is recorded, not asserted.",
     "technique": "property-based testing (rapid): state-machine model of the writer; end-to-end subsequence/accounting oracle over loopback TCP with sentinel completion",
     "assumptions": ["loopback TCP delivers bytes in order", "one goroutine writes a connection in FIFO order (sentinel completion)"],
-    "quick": [R("TestPropBufWriter", 20000, steps=40), R("TestPropHealthyConn", 120), R("TestPropPausingEndpoint", 4)],
-    "thorough": [R("TestPropBufWriter", 300000, shards=4, steps=60, timeout=2400), R("TestPropHealthyConn", 500, shards=10, timeout=2400), R("TestPropPausingEndpoint", 25, shards=4, timeout=2400)],
+    "quick": [R("TestPropBufWriter", 20000, steps=40), R("TestPropHealthyConn", 120), R("TestPropSiblingDestinations", 30), R("TestPropPausingEndpoint", 4)],
+    "thorough": [R("TestPropBufWriter", 300000, shards=4, steps=60, timeout=2400), R("TestPropHealthyConn", 500, shards=10, timeout=2400), R("TestPropSiblingDestinations", 400, shards=3, timeout=2400), R("TestPropPausingEndpoint", 25, shards=4, timeout=2400)],
 }
 
 PROPS["C06"] = {
